@@ -37,7 +37,16 @@ Out == [k \in DOMAIN T.out |-> [sid |-> T.out[k][1], tomo |-> T.out[k][2], obj |
 \* the recorded value is the brute-force distance (x1e5; both rounded, 1e-6 relative)
 RecOK(a, b, r) == \E e \in LinkD : e[1] = a /\ e[2] = b /\ Abs(r - e[3]) <= 2 + (e[3] \div 1000000)
 
-Failing == IF Cardinality(Sids) # Len(T.parts) THEN "TRACE_INCONSISTENT"
+\* Lattice cases (T.lat = [E, X : integer site coordinates in list order, max2, min2 : squared integer thresholds]) put
+\* distances EXACTLY on the thresholds.  There the specification itself decides which pairs are linked - the interval is
+\* (min_distance, max_distance]: open below, closed above - and the relation logged by the driver has to be that one.
+Sq(u, v) == (u[1] - v[1]) * (u[1] - v[1]) + (u[2] - v[2]) * (u[2] - v[2]) + (u[3] - v[3]) * (u[3] - v[3])
+LatticeLink == { pq \in Sids \X Sids : \E a, b \in DOMAIN T.parts :
+                    /\ a # b /\ T.parts[a][1] = pq[1] /\ T.parts[b][1] = pq[2] /\ T.parts[a][2] = T.parts[b][2]
+                    /\ T.lat.min2 < Sq(T.lat.X[a], T.lat.E[b]) /\ Sq(T.lat.X[a], T.lat.E[b]) <= T.lat.max2 }
+LatticeOK == ("lat" \notin DOMAIN T) \/ Link = LatticeLink
+
+Failing == IF Cardinality(Sids) # Len(T.parts) \/ ~LatticeOK THEN "TRACE_INCONSISTENT"
            ELSE Ch!FailingClause(Out, Sids, TomoOf, Link, RecOK)
 
 Kind(c) == IF c \in {"C19_ConsecutiveLinked", "C19_RecordedDistance"}
